@@ -954,6 +954,35 @@ def C13(ctx):
             ctx.fail("converted graph does not hold the j-th successor (or -1) in column j", lmap=proto.enc_lmap(lm)[:300],
                      observed=o[:300])
         ctx.case("l2a " + proto.enc_lmap(lm), k >= 2, "converted")
+    # matrices: whenever the conversion accepts, column j holds -1 or the j-th successor and every 1 of
+    # the matrix is an arc of the result (stray entries right next to the legal block of a row are the
+    # ones a range test can let through)
+    for it in range(ctx.n(60, 1500)):
+        k = rng.choice([2, 2, 3])
+        g = rng.choice([gen.rand_arc_subset, gen.rand_profile_graph])(rng, k)
+        n = g.n
+        rows = g.rows()
+        M = [[0] * n for _ in range(n)]
+        for u in range(n):
+            for x in rows[u]:
+                if x >= 0:
+                    M[u][x] = 1
+        u = rng.randrange(n)
+        start = (4 * u) % n
+        w = rng.choice([start + 4, start - 1, start + 5, start - 2, rng.randrange(n), rng.randrange(n)]) % n
+        M[u][w] = 1
+        o = ctx.corr("m2a " + proto.enc_matrix(M))
+        r = parse_ok(o)
+        if r is not None:
+            got = parse_acc_rows(r[0])
+            if any(got[v][j] not in (-1, succ(v, j, k)) for v in range(n) for j in range(4)):
+                ctx.fail("accessor converted from a matrix holds a vertex that is not the j-th successor in column j",
+                         k=k, row=u, column=w, observed=o[:300])
+            elif any(M[v][x] and x not in got[v] for v in range(n) for x in range(n)):
+                ctx.fail("accessor converted from a matrix lost an arc of the matrix", k=k, row=u, column=w, observed=o[:300])
+        elif w in [succ(u, j, k) for j in range(4)]:
+            ctx.fail("legal matrix rejected", k=k, row=u, column=w, observed=o[:100])
+        ctx.case("m2a %d %d %s" % (u, w, g.token()), True, "matrix")
     if ctx.part == 0:
         for k in ((6, 8, 9, 10, 11) if ctx.thorough else (6, 8, 10)):
             n = 4 ** k
@@ -1022,9 +1051,11 @@ def C14(ctx):
             ob = ctx.corr("m2a " + proto.enc_matrix(M))
             if ob != "ok " + proto.show_acc(rows):
                 ctx.fail("accessor -> matrix -> accessor is not the identity", acc=a)
-            # one illegal arc
-            for _ in range(2):
+            # one illegal arc (half of them right next to the legal block of the row)
+            for _ in range(3):
                 u, w = rng.randrange(g.n), rng.randrange(g.n)
+                if rng.random() < 0.5:
+                    w = ((4 * u) % g.n + rng.choice([4, -1, 5, -2])) % g.n
                 if w not in [succ(u, j, k) for j in range(4)]:
                     M2 = [r[:] for r in M]
                     M2[u][w] = 1
@@ -1251,11 +1282,23 @@ def C17(ctx):
         live = set(h.vertices())
         if any(len([j for j in h.live(v) if succ(v, j, k) in live]) != d for v in live):
             continue
+        extra = 0
+        if rng.random() < 0.6:
+            # additional arcs from live vertices into arc-less vertices, unevenly distributed: every live
+            # vertex still has exactly d LIVE successors
+            nib2 = list(nib)
+            for v in sorted(live):
+                for j in range(4):
+                    if not (nib2[v] >> j) & 1 and succ(v, j, k) not in live and rng.random() < 0.4:
+                        nib2[v] |= 1 << j
+                        extra += 1
+            h = gen.Graph(k, nib2)
         rows = np.array(h.rows(), dtype=int)
         cap = float(GZ.approximate_capacity(rows))
         if cap != math.log2(d):
-            ctx.fail("deterministic mode does not return exactly log2 d on a d-regular graph", acc=h.token(), d=d, observed=cap)
-        ctx.case("regular %s" % h.token(), d >= 2, "regular-d%d" % d)
+            ctx.fail("deterministic mode does not return exactly log2 d on a graph whose live vertices all have d live successors",
+                     acc=h.token(), d=d, arcs_into_arcless_vertices=extra, observed=cap)
+        ctx.case("regular %s" % h.token(), d >= 2, "regular-d%d" % d, "dead-targets" if extra else "closed")
     # spectral radius
     for it in range(ctx.n(60, 1500)):
         k = rng.choice([2, 2, 3] if not ctx.thorough else [2, 3, 3, 4])
@@ -1427,8 +1470,15 @@ def snapshot(x):
         return ("dict", tuple((snapshot(k), snapshot(v)) for k, v in x.items()))
     if isinstance(x, (list, tuple)):
         return (type(x).__name__, tuple(snapshot(v) for v in x))
-    if isinstance(x, BF.LocalBioFilter):
-        return ("flt", snapshot(sorted((k, repr(v)) for k, v in vars(x).items())))
+    if isinstance(x, BF.DefaultBioFilter):
+        # instance state and the data attributes of its classes (state shared between instances lives there)
+        cls_state = []
+        for c in type(x).__mro__:
+            if c is object:
+                continue
+            cls_state += [(c.__name__ + "." + k, repr(v)) for k, v in vars(c).items()
+                          if not k.startswith("__") and not callable(v) and not isinstance(v, (staticmethod, classmethod, property))]
+        return ("flt", snapshot(sorted((k, repr(v)) for k, v in vars(x).items())), snapshot(sorted(cls_state)))
     return ("v", repr(x))
 
 
@@ -1462,8 +1512,19 @@ def C20(ctx):
             "tbl": np.array(gen.rand_table(rng, k, "random"), dtype=int),
             "mask": np.array(gen.rand_mask(rng, k, 0.8), dtype=rng.choice([int, bool])),
             "lm": {u: [succ(u, j, k) for j in g.live(u)] for u in vs},
-            "flt": mk(k, rng.choice([None, 2]), rng.choice([None, [0.25, 0.75]]), rng.choice([None, ["GC"]])),
+            "flt": mk(k, rng.choice([None, 2]), rng.choice([None, [0.25, 0.75]]), None),
         }
+        # the shared filter's own configuration (kept to judge its answers with the documented predicate)
+        f_cfg = (rng.choice([None, 2]), rng.choice([None, [0.25, 0.75]]),
+                 rng.choice([None, None, ["GC"], ["AT", "CG"], ["TTA"], ["A" * k], [gen.rand_dna(rng, min(k, 2))]]))
+        fit = lambda ms: None if ms is None else ([m for m in ms if 0 < len(m) <= k] or None)
+        f_cfg = (f_cfg[0], f_cfg[1], fit(f_cfg[2]))
+        shared["flt"] = mk(k, *f_cfg)
+        probe = "".join(rng.choice(["GC", "AT", "CG", "TTA", "TAA", "ACGT", gen.rand_dna(rng, 3)]) for _ in range(6))
+        other_cfgs = [(rng.choice([None, 1, 2]), rng.choice([None, [0.25, 0.75], [0.5, 0.5]]),
+                       rng.choice([None, ["GC"], ["AT"], ["CG", "TTA"], [gen.rand_dna(rng, min(k, 2))], [probe[2:2 + min(k, 3)]]]))
+                      for _ in range(3)]
+        other_cfgs = [(a, b_, fit(c)) for a, b_, c in other_cfgs]
         fast = not g.has_deg3_from(v) and rng.random() < 0.4
         strand = SW.encode(shared["bits"].copy(), shared["acc"].copy(), v, is_faster=fast, shuffles=shared["tbl"].copy())
         A, B, T_, M, LM, F = (shared[x] for x in ("acc", "bits", "tbl", "mask", "lm", "flt"))
@@ -1534,6 +1595,12 @@ def C20(ctx):
             return r[0], r[1], r[2], r[3]
         calls["removal"] = (removal, None)
         calls["complete"] = (lambda vb=False: GZ.get_complete_accessor(k, verbose=vb), "complete %d" % k)
+        # several filters alive in one process: building another filter is a library call like any other and
+        # must not change what an existing filter answers
+        calls["valid"] = (lambda vb=False: bool(F.valid(probe, only_last=False)), None)
+        calls["valid_last"] = (lambda vb=False: bool(F.valid(probe[:k + 1])), None)
+        for oi, oc in enumerate(other_cfgs):
+            calls["new_filter%d" % oi] = (lambda vb=False, oc=oc: bool(mk(k, *oc).valid(probe, only_last=False)), None)
         calls["from_matrix"] = (lambda vb=False: GZ.adjacency_matrix_to_accessor(
             GZ.accessor_to_adjacency_matrix(A), verbose=vb), None)
         calls["bits2int"] = (lambda vb=False: OP.bit_to_number(B, is_string=False, verbose=vb), None)
@@ -1558,7 +1625,15 @@ def C20(ctx):
             A, B, T_, M, LM, F, LM2 = (priv[x] for x in ("acc", "bits", "tbl", "mask", "lm", "flt", "lm2"))
             iso[name] = proto.guarded(lambda: canon(calls[name][0]()), 60)
         A, B, T_, M, LM, F, LM2 = (shared[x] for x in ("acc", "bits", "tbl", "mask", "lm", "flt", "lm2"))
+        # the filter answers are also judged by the documented predicate (independent of process state)
+        refs = {"valid": oracle.filter_ref(k, f_cfg[0], f_cfg[2], f_cfg[1], probe),
+                "valid_last": oracle.filter_ref(k, f_cfg[0], f_cfg[2], f_cfg[1], probe[:k + 1][-k:]),
+                "find": [int(oracle.filter_ref(k, f_cfg[0], f_cfg[2], f_cfg[1], gen.kmer(x, k))) for x in range(4 ** k)]}
+        for oi, oc in enumerate(other_cfgs):
+            refs["new_filter%d" % oi] = oracle.filter_ref(k, oc[0], oc[2], oc[1], probe)
         hist = [rng.choice(list(calls)) for _ in range(rng.choice([3, 5, 8, 12 if ctx.thorough else 8]))]
+        if rng.random() < 0.5:
+            hist += [rng.choice(["new_filter0", "new_filter1", "new_filter2"]), rng.choice(["valid", "find", "valid_last"])]
         for name in hist:
             before = {n: snapshot(x) for n, x in shared.items()}
             verbose = rng.random() < 0.4
@@ -1569,6 +1644,15 @@ def C20(ctx):
                 ctx.fail("call in a history returns something else than the same call on fresh equal arguments"
                          + (" (verbose on)" if verbose else ""), call=name, history=hist, observed=str(got)[:300],
                          expected=str(iso[name])[:300])
+            if name in refs and got[0] == "ok":
+                exp = refs[name]
+                val = got[1]
+                if name == "find":
+                    val = [int(x) for x in val[1]] if isinstance(val, tuple) and val and val[0] == "nd" else val
+                if val != exp and not (name == "find" and not any(exp)):
+                    ctx.fail("filter answer in a history differs from the documented predicate of its own configuration",
+                             call=name, history=hist, k=k, config=str(f_cfg if not name.startswith("new_filter") else other_cfgs[int(name[-1])]),
+                             probe=probe, observed=str(val)[:200], expected=str(exp)[:200])
             after = {n: snapshot(x) for n, x in shared.items()}
             for n in shared:
                 if before[n] != after[n]:
